@@ -177,6 +177,15 @@ class Interp:
             raise Raised(st, self.exc_class(st.exc, env), ast.unparse(st.exc)[:120])
         elif t is ast.Try:
             self.try_(st, env)
+        elif t is ast.With:
+            # only model context managers supplied by a rule (objects with `_cm_value`)
+            for item in st.items:
+                cm = ev(item.context_expr, env)
+                if not hasattr(cm, '_cm_value'):
+                    raise Unknown(f'with-statement over a non-model context manager: {ast.unparse(item.context_expr)[:60]}')
+                if item.optional_vars is not None:
+                    self.assign(item.optional_vars, cm._cm_value, env)
+            self.block(st.body, env)
         elif t is ast.Delete:
             for tgt in st.targets:
                 if isinstance(tgt, ast.Subscript) and not isinstance(tgt.slice, ast.Slice):
